@@ -29,10 +29,27 @@ theorem legalAtom_printAtom (s : Style) (a : Atom) (ha : (a.key != some []) = tr
   · by_cases h : ((s.quote == Quote.none) = true ∧ unquotedOk isStopPattern pat = true) ∧
         (!(s.useShorthand && key.isNone && kind == Kind.glob && !cs) || !keywords.contains pat) = true
     · rw [if_pos h]
-      simp only [h.1.2, h.2]
+      simp only [h.1.2]
       simp
     · rw [if_neg h]
       simp [hf]
+
+/-- the printer family never writes a bare keyword term: it quotes the three words -/
+theorem bareKeyword_printAtom (s : Style) (a : Atom) : bareKeyword (printAtom s a) = false := by
+  obtain ⟨key, kind, pat, cs⟩ := a
+  have hf := fallbackQuote_ne s
+  simp only [bareKeyword, printAtom, Bool.and_eq_true]
+  by_cases h : ((s.quote == Quote.none) = true ∧ unquotedOk isStopPattern pat = true) ∧
+      (!(s.useShorthand && key.isNone && kind == Kind.glob && !cs) || !keywords.contains pat) = true
+  · rw [if_pos h]
+    have h2 := h.2
+    simp only [Bool.or_eq_true, Bool.not_eq_true'] at h2
+    rcases h2 with h2 | h2
+    · simp [h2]
+    · rw [h2]; simp
+  · rw [if_neg h]
+    have : (s.fallbackQuote == Quote.none) = false := by simpa using hf
+    simp [this]
 
 theorem level_le (c : Cst) : level c ≤ 3 := by cases c <;> simp [level]
 
@@ -42,13 +59,27 @@ theorem level_operand (s : Style) (need : Nat) (hn : need ≤ 3) (c : Cst) : nee
   · simpa [wrap, level] using hn
   · rename_i h; simp at h; exact h.2
 
-theorem legal_operand (s : Style) (hs : s.ok = true) (need : Nat) (c : Cst) (hc : legal c = true) :
-    legal (operand s need c) = true := by
+theorem legal_operand (s : Style) (hs : s.ok = true) (need : Nat) (c : Cst) (hc : legal c = true)
+    (hk : endsKeyword c = false) : legal (operand s need c) = true := by
   simp only [Style.ok, Bool.and_eq_true] at hs
   unfold operand
   split
-  · simp [wrap, legal, hs.2, hc]
+  · simp [wrap, legal, hs.2, hc, hk]
   · exact hc
+
+theorem endsKeyword_operand (s : Style) (need : Nat) (c : Cst) (hk : endsKeyword c = false) :
+    endsKeyword (operand s need c) = false := by
+  unfold operand
+  split
+  · rfl
+  · exact hk
+
+theorem endsKeyword_print (s : Style) (e : Expr) : endsKeyword (print s e) = false := by
+  induction e with
+  | atom a => simp only [print, endsKeyword]; exact bareKeyword_printAtom s a
+  | not e ih => simp only [print, endsKeyword]; exact endsKeyword_operand s 3 _ ih
+  | and l r ihl ihr => simp only [print, endsKeyword]; exact endsKeyword_operand s 3 _ ihr
+  | or l r ihl ihr => simp only [print, endsKeyword]; exact endsKeyword_operand s 2 _ ihr
 
 theorem abstract_operand (s : Style) (need : Nat) (c : Cst) : abstract (operand s need c) = abstract c := by
   unfold operand; split <;> simp [wrap, abstract]
@@ -81,7 +112,7 @@ theorem legal_print (s : Style) (hs : s.ok = true) (e : Expr) (he : printable e 
     simp only [print, legal]
     exact legalAtom_printAtom s a (by simpa [printable, Expr.atoms] using he)
   | not e ih =>
-    have hc := legal_operand s hs 3 _ (ih (by simpa [printable, Expr.atoms] using he))
+    have hc := legal_operand s hs 3 _ (ih (by simpa [printable, Expr.atoms] using he)) (endsKeyword_print s e)
     have hw := wsAfter_ok s hs (operand s 3 (print s e))
     have hlev : level (operand s 3 (print s e)) = 3 :=
       Nat.le_antisymm (level_le _) (level_operand s 3 (Nat.le_refl _) _)
@@ -89,24 +120,26 @@ theorem legal_print (s : Style) (hs : s.ok = true) (e : Expr) (he : printable e 
     exact ⟨⟨⟨hw.1, hw.2⟩, by simp [hlev]⟩, hc⟩
   | and l r ihl ihr =>
     obtain ⟨hl, hr⟩ := printable_sub.1 he
-    have hcl := legal_operand s hs 2 _ (ihl hl)
-    have hcr := legal_operand s hs 3 _ (ihr hr)
+    have hcl := legal_operand s hs 2 _ (ihl hl) (endsKeyword_print s l)
+    have hcr := legal_operand s hs 3 _ (ihr hr) (endsKeyword_print s r)
+    have hnk := endsKeyword_operand s 2 _ (endsKeyword_print s l)
     have hwa := wsAfter_ok s hs (operand s 3 (print s r))
     have hwb := wsBefore_ok s hs (operand s 2 (print s l))
     have hlevr : level (operand s 3 (print s r)) = 3 :=
       Nat.le_antisymm (level_le _) (level_operand s 3 (Nat.le_refl _) _)
     have hlevl := level_operand s 2 (by omega) (print s l)
     simp only [print, legal, Bool.and_eq_true]
-    exact ⟨⟨⟨⟨⟨⟨⟨hwb.1, hwa.1⟩, hwb.2⟩, hwa.2⟩, by simpa using hlevl⟩, by simp [hlevr]⟩, hcl⟩, hcr⟩
+    exact ⟨⟨⟨⟨⟨⟨⟨⟨hwb.1, hwa.1⟩, hwb.2⟩, hwa.2⟩, by simpa using hlevl⟩, by simp [hlevr]⟩, hcl⟩, hcr⟩, by simp [hnk]⟩
   | or l r ihl ihr =>
     obtain ⟨hl, hr⟩ := printable_sub.2 he
-    have hcl := legal_operand s hs 1 _ (ihl hl)
-    have hcr := legal_operand s hs 2 _ (ihr hr)
+    have hcl := legal_operand s hs 1 _ (ihl hl) (endsKeyword_print s l)
+    have hcr := legal_operand s hs 2 _ (ihr hr) (endsKeyword_print s r)
+    have hnk := endsKeyword_operand s 1 _ (endsKeyword_print s l)
     have hwa := wsAfter_ok s hs (operand s 2 (print s r))
     have hwb := wsBefore_ok s hs (operand s 1 (print s l))
     have hlevr := level_operand s 2 (by omega) (print s r)
     simp only [print, legal, Bool.and_eq_true]
-    exact ⟨⟨⟨⟨⟨⟨hwb.1, hwa.1⟩, hwb.2⟩, hwa.2⟩, by simpa using hlevr⟩, hcl⟩, hcr⟩
+    exact ⟨⟨⟨⟨⟨⟨⟨hwb.1, hwa.1⟩, hwb.2⟩, hwa.2⟩, by simpa using hlevr⟩, hcl⟩, hcr⟩, by simp [hnk]⟩
 
 theorem abstract_print (s : Style) (e : Expr) : abstract (print s e) = e := by
   induction e with
